@@ -8,9 +8,10 @@ import Cutadapt.Adapters
       duplicates. `kmers_present` is a disjunction over entries and over the words of an entry, hence independent of
       that order.
     * `int(i * error_rate)` is supplied as `thr : Nat → Nat` (see `Adapters.Adapter.thr`).
-    * `kmers_present` does not clamp a positive `stop` to the read length; the bytes it then reads behind the read are the
-      extra argument `beyond` (padded with zeros if still too short). Bytes ≥ 128 (possible only in `beyond`) index
-      behind the 128-entry mask table in the C code; the model gives them the empty mask. -/
+    * Until commit d940092 `kmers_present` did not clamp a positive `stop` to the read length; the bytes it then read behind
+      the read are the extra argument `beyond` of `kmersPresent` (padded with zeros). The argument is kept so that
+      "the verdict does not depend on memory behind the read" is a theorem (`C07.kmers_present_ignores_beyond`).
+      Bytes ≥ 128 get the empty mask (reads are ASCII). -/
 namespace Cutadapt.Kmer
 open Cutadapt Cutadapt.Align Cutadapt.Generated Cutadapt.Adapters
 
@@ -66,26 +67,34 @@ structure SearchSet where
   kmers : List Bytes
 deriving Repr, BEq, DecidableEq
 
-/-- first loop of `create_back_overlap_searchsets`: `(max_errors, largest length with that many errors)` -/
-def errorLengths (thr : Nat → Nat) (m : Nat) : List (Nat × Nat) :=
-  let r := (List.range (m + 1)).foldl
-    (fun (st : Nat × List (Nat × Nat)) i => if thr i > st.1 then (st.1 + 1, st.2 ++ [(st.1, i - 1)]) else st) (0, [])
-  r.2 ++ [(r.1, m)]
+/-- first loop of `create_back_overlap_searchsets` from index `i` on, with `max_error = me`:
+    `(max_errors, largest length with that many errors)`, in the order in which the code appends them -/
+def errorLengthsGo (thr : Nat → Nat) (m : Nat) : Nat → Nat → Nat → List (Nat × Nat)
+  | 0, _, me => [(me, m)]                      -- `error_lengths.append((max_error, adapter_length))`
+  | fuel + 1, i, me =>
+    if thr i > me then (me, i - 1) :: errorLengthsGo thr m fuel (i + 1) (me + 1)
+    else errorLengthsGo thr m fuel (i + 1) me
 
-/-- body of the second loop; state = `(minimum_length, search_sets)` -/
-def backStep (adapter : Bytes) (st : Nat × List SearchSet) (el : Nat × Nat) : Nat × List SearchSet :=
-  let maxErrors := el.1
-  let length := el.2
-  if st.1 > length then st else
-  let st1 : Nat × List SearchSet :=
-    if maxErrors == 0 && st.1 < 5 then
-      (5, st.2 ++ (List.range' st.1 (5 - st.1)).map (fun i => ⟨-(i : Int), none, [adapter.take i]⟩))
-    else st
-  (length + 1, st1.2 ++ [⟨-(length : Int), none, kmerChunks (adapter.take st1.1) (maxErrors + 1)⟩])
+/-- `for i in range(adapter_length + 1): if int(i * error_rate) > max_error: …` -/
+def errorLengths (thr : Nat → Nat) (m : Nat) : List (Nat × Nat) := errorLengthsGo thr m (m + 1) 0 0
 
-/-- `create_back_overlap_searchsets(adapter, min_overlap, error_rate)` -/
-def createBackOverlapSearchsets (adapter : Bytes) (minOverlap : Nat) (thr : Nat → Nat) : List SearchSet :=
-  ((errorLengths thr adapter.length).foldl (backStep adapter) (minOverlap, [])).2
+/-- second loop of `create_back_overlap_searchsets` with `minimum_length = ml`; `indels` widens every window by the number of
+    errors allowed at that level (`slack = max_errors if indels else 0`) -/
+def backSetsGo (adapter : Bytes) (indels : Bool) : List (Nat × Nat) → Nat → List SearchSet
+  | [], _ => []
+  | (maxErrors, length) :: rest, ml =>
+    if ml > length then backSetsGo adapter indels rest ml else
+    let small := maxErrors == 0 && ml < 5
+    let exact : List SearchSet :=
+      if small then (List.range' ml (5 - ml)).map (fun (i : Nat) => ⟨-(i : Int), none, [adapter.take i]⟩) else []
+    let ml1 := if small then 5 else ml
+    let slack := if indels then maxErrors else 0
+    exact ++ ⟨-((length + slack : Nat) : Int), none, kmerChunks (adapter.take ml1) (maxErrors + 1)⟩ ::
+      backSetsGo adapter indels rest (length + 1)
+
+/-- `create_back_overlap_searchsets(adapter, min_overlap, error_rate, indels)` -/
+def createBackOverlapSearchsets (adapter : Bytes) (minOverlap : Nat) (thr : Nat → Nat) (indels : Bool) : List SearchSet :=
+  backSetsGo adapter indels (errorLengths thr adapter.length) minOverlap
 
 /-! ## `minimize_kmer_search_list`, `remove_redundant_kmers` -/
 
@@ -154,18 +163,19 @@ def removeRedundantKmers (sets : List SearchSet) : Except KmerErr (List Entry) :
     let keys := sortUniq posLt (minimized.map (·.2))
     .ok (keys.map fun key => ⟨key.1, key.2, (minimized.filter (·.2 == key)).map (·.1)⟩)
 
-/-- `create_positions_and_kmers(adapter, min_overlap, error_rate, back_adapter, front_adapter, internal)` -/
-def searchSets (adapter : Bytes) (minOverlap : Nat) (thr : Nat → Nat) (back front internal : Bool) : List SearchSet :=
-  (if back then createBackOverlapSearchsets adapter minOverlap thr else []) ++
+/-- `create_positions_and_kmers(adapter, min_overlap, error_rate, back_adapter, front_adapter, internal, indels)` -/
+def searchSets (adapter : Bytes) (minOverlap : Nat) (thr : Nat → Nat) (back front internal indels : Bool) :
+    List SearchSet :=
+  (if back then createBackOverlapSearchsets adapter minOverlap thr indels else []) ++
   (if front then
-    (createBackOverlapSearchsets adapter.reverse minOverlap thr).map
+    (createBackOverlapSearchsets adapter.reverse minOverlap thr indels).map
       (fun s => ⟨0, some (-s.start), s.kmers.map List.reverse⟩)
    else []) ++
   (if internal then [⟨0, none, kmerChunks adapter (thr adapter.length + 1)⟩] else [])
 
-def createPositionsAndKmers (adapter : Bytes) (minOverlap : Nat) (thr : Nat → Nat) (back front internal : Bool) :
+def createPositionsAndKmers (adapter : Bytes) (minOverlap : Nat) (thr : Nat → Nat) (back front internal indels : Bool) :
     Except KmerErr (List Entry) :=
-  removeRedundantKmers (searchSets adapter minOverlap thr back front internal)
+  removeRedundantKmers (searchSets adapter minOverlap thr back front internal indels)
 
 /-! ## `matches_lookup` -/
 
@@ -248,7 +258,7 @@ def windowOf (start stop : Int) (n : Nat) : Option (Nat × Nat) :=
   | some st =>
     let stop? : Option Int :=
       if stop < 0 then (if n' + stop ≤ 0 then none else some (n' + stop))
-      else if stop == 0 then some n' else some stop     -- a positive `stop` is not clamped to `n`
+      else if stop == 0 || stop > n' then some n' else some stop     -- `stop == 0 or stop > seq_length`
     match stop? with
     | none => none
     | some sp => if sp - st ≤ 0 then none else some (st.toNat, (sp - st).toNat)
@@ -290,11 +300,11 @@ def finderArgs (a : Adapter) : Option (Bytes × Bool × Bool × Bool) :=
 
 /-- `positions_and_kmers` of the adapter's finder (`none` for the class-level mock finder) -/
 def positionsFor (a : Adapter) : Option (Except KmerErr (List Entry)) :=
-  (finderArgs a).map fun (s, b, f, i) => createPositionsAndKmers s a.minOverlap a.thr b f i
+  (finderArgs a).map fun (s, b, f, i) => createPositionsAndKmers s a.minOverlap a.thr b f i a.indels
 
 /-- `_make_kmer_finder(sequence, back_adapter, front_adapter, internal)` -/
 def makeKmerFinder (a : Adapter) (s : Bytes) (b f i : Bool) : Finder :=
-  match createPositionsAndKmers s a.minOverlap a.thr b f i with
+  match createPositionsAndKmers s a.minOverlap a.thr b f i a.indels with
   | .error _ => .mock   -- not reachable: `create_positions_and_kmers` never produces a middle search
   | .ok entries =>
     match mkFinder entries with
@@ -306,6 +316,19 @@ def finderFor (a : Adapter) : Finder :=
   match finderArgs a with
   | none => .mock
   | some (s, b, f, i) => makeKmerFinder a s b f i
+
+/-- does the adapter's finder use both overlap directions (`AnywhereAdapter`, `;anywhere`)? -/
+def bothDirections (a : Adapter) : Bool :=
+  match finderArgs a with
+  | some (_, b, f, _) => b && f
+  | none => false
+
+/-- The domain on which the prefilter is proved not to change the result (`C07.prefilter_safe_partial`): the read is
+    ASCII without NUL bytes, and it is not the case that the adapter searches in both overlap directions while the read
+    is shorter than the adapter plus its allowed errors (then the read can lie strictly inside the adapter). -/
+def safeDomain (a : Adapter) (read : Bytes) : Bool :=
+  read.all (fun c => c != 0 && c < 128) &&
+    !(bothDirections a && decide (read.length < a.seq.length + a.thr a.seq.length))
 
 /-- the sequence `kmers_present` is called with (`RightmostFrontAdapter` reverses the read) -/
 def finderInput (a : Adapter) (read : Bytes) : Bytes :=
